@@ -26,7 +26,13 @@ RULE = ("classes: (a) the mutate suite's collection-heavy classes with its op hi
         "spelling classes, 12% of the mutate classes, plus a directed stream of small mostly-optional classes): triples with "
         "different subsets of optional fields left unset / explicitly None in random order (both operand orders are compared), "
         "histories with x.f = None / re-assignment / None over a stored value; the first instance after its history joins the "
-        "comparison matrix; two fixed cases: __validate__ hook after unpickling, "
+        "comparison matrix; Float positions (bare, in Array/Deque/Tuple/Map) given ints and floats — a number-type difference at a "
+        "position declared Float is keyed @float-field, apart from the known eq-not-hash family; sequences of tuples holding "
+        "lists / dicts / structures (depth-3 alias probe); on half of the cases a chain of 2-3 copy operations "
+        "(copy/deepcopy/pickle in any order) whose every link must succeed and whose result must == x (model: composition of "
+        "copyI/deepcopyI/pickleI); an oracle-only stream of classes with Constant attributes (not in the model's declaration "
+        "language): same measurements on the real code, assignment to the constant on fresh instance and copies; a copy "
+        "operation that raises anything but a can't-pickle error is a failure; two fixed cases: __validate__ hook after unpickling, "
         "Decimals with different exponents; non-trivial = >=2 instances; distinct by sha256 of the case line")
 ASSUMPTIONS = [
     "_enable_undefined_value is modelled for the top-level class only (Inst.nones / Inst.undef, getA reads Undefined, setattrUndef); nested instances carry no _none_fields in the value model; the constructor model (C01/C02) does not know the flag, so start states of such classes are taken from the real code",
